@@ -82,7 +82,7 @@ static int l1s_nb_resp(__unused uint8_t p1, uint8_t burst_id, uint16_t p3)
 	}
 
 	/* get radio parameters for _this_ burst */
-	gsm_fn2gsmtime(&rx_time, l1s.current_time.fn - 1);
+	gsm_fn2gsmtime(&rx_time, (l1s.current_time.fn - 1 + GSM_MAX_FN) % GSM_MAX_FN);
 	rfch_get_params(&rx_time, &rf_arfcn, &tsc, &tn);
 
 	/* collect measurements */
@@ -113,7 +113,7 @@ static int l1s_nb_resp(__unused uint8_t p1, uint8_t burst_id, uint16_t p3)
 		int32_t avg_dbm8 = 0;
 
 		/* Get radio parameters for the first burst */
-		gsm_fn2gsmtime(&rx_time, l1s.current_time.fn - 4);
+		gsm_fn2gsmtime(&rx_time, (l1s.current_time.fn - 4 + GSM_MAX_FN) % GSM_MAX_FN);
 		rfch_get_params(&rx_time, &rf_arfcn, &tsc, &tn);
 
 		/* Set Channel Number depending on MFrame Task ID */
